@@ -7,6 +7,7 @@
    expired entry as absent, commit 0b84ca6), [fixed = false] the code of the pinned commit.
    [pi] is the order in which Go ranges over the map (any permutation). *)
 From Verif Require Import Base.Util Model.ResultStore Proofs.ResultStoreProofs Gen.Generated.
+From Verif Require Import Base.GenIR Gen.GeneratedTr Proofs.GenTrStores.
 Open Scope Z_scope.
 
 (* A view never holds two results for one unit of work (either variant, any history). *)
@@ -133,6 +134,57 @@ Print Assumptions lin_check_sound.
 Theorem C10_gen_ttl_nonneg : 0 <= ResultStoreTTL /\ 0 < ResultStoreGCInterval.
 Proof. vm_compute. split; [discriminate | reflexivity]. Qed.
 Print Assumptions C10_gen_ttl_nonneg.
+
+Section GenTie.
+Local Open Scope Z_scope.
+(* ---- Tie to the source by translation (Gen/GeneratedTr.v, regenerated from /repo on every run by gen/translate.go) ----
+   g_* are the decision terms translated from the CURRENT Go code: every condition, the branch structure and which
+   white-listed effect statement runs on which path.  The theorems below state that the model's functions - about
+   which every theorem above speaks - are the interpretation of these terms. *)
+(* resultStore.Add, loop body: the model's add1 (repaired variant) is the interpretation of the generated body: store when absent or older than the TTL, replace only for a strictly higher check block *)
+Theorem C10_gen_Add_decisions :
+  forall ttl now s r,
+  let l := lookup (r_wid r) s in
+  let e := oget (mkEnt r now) l in
+  add1 true ttl now s r =
+  match g_rs_add_body (isSome l) (now - e_at e) ttl (Z.of_N (r_blk (e_res e))) (Z.of_N (r_blk r)) with
+  | ([1], Fall) => remove1 (r_wid r) s ++ [mkEnt r now]
+  | _ => s
+  end.
+Proof. exact gen_rs_add_body. Qed.
+Print Assumptions C10_gen_Add_decisions.
+
+(* resultStore.viewResults, loop body: an entry older than the TTL is skipped, any other returned *)
+Theorem C10_gen_View_decisions :
+  forall ttl now e t,
+  filter (fun e => negb (expired ttl now e)) (e :: t) =
+  match g_rs_view_body (now - e_at e) ttl with
+  | ([1], Fall) => e :: filter (fun e => negb (expired ttl now e)) t
+  | _ => filter (fun e => negb (expired ttl now e)) t
+  end.
+Proof. exact gen_rs_view_body. Qed.
+Print Assumptions C10_gen_View_decisions.
+
+(* resultStore.gc, loop body: exactly the entries older than the TTL are deleted *)
+Theorem C10_gen_gc_decisions :
+  forall ttl now e t,
+  gc ttl now (e :: t) =
+  match g_rs_gc_body (now - e_at e) ttl with
+  | ([1], Fall) => gc ttl now t
+  | _ => e :: gc ttl now t
+  end.
+Proof. exact gen_rs_gc_body. Qed.
+Print Assumptions C10_gen_gc_decisions.
+
+(* resultStore.Remove / remove: every id of the argument is removed when present *)
+Theorem C10_gen_Remove_decisions :
+  forall found : bool,
+  g_rs_remove_body = ([1], Fall) /\
+  g_rs_remove found = if found then ([1], Fall) else ([], RetU).
+Proof. exact gen_rs_remove. Qed.
+Print Assumptions C10_gen_Remove_decisions.
+
+End GenTie.
 
 (* Non-vacuity: a sorted history with a replacement, a dropped lower block, an expiry, a gc and
    a removal; the hypotheses of C10_kept hold for the replacement and the views are as expected;
